@@ -95,7 +95,7 @@ static htp_status_t htp_connp_res_receiver_send_data(htp_connp_t *connp, int is_
 
     htp_tx_data_t d;
     d.tx = connp->out_tx;
-    d.data = connp->out_current_data + connp->out_current_receiver_offset;
+    d.data = (connp->out_current_data == NULL) ? NULL : connp->out_current_data + connp->out_current_receiver_offset;
     d.len = connp->out_current_read_offset - connp->out_current_receiver_offset;
     d.is_last = is_last;
 
@@ -249,7 +249,8 @@ static htp_status_t htp_connp_res_buffer(htp_connp_t *connp) {
 static htp_status_t htp_connp_res_consolidate_data(htp_connp_t *connp, unsigned char **data, size_t *len) {    
     if (connp->out_buf == NULL) {
         // We do not have any data buffered; point to the current data chunk.
-        *data = connp->out_current_data + connp->out_current_consume_offset;
+        // The chunk pointer is NULL when the stream is being closed.
+        *data = (connp->out_current_data == NULL) ? NULL : connp->out_current_data + connp->out_current_consume_offset;
         *len = connp->out_current_read_offset - connp->out_current_consume_offset;
     } else {
         // We do have data in the buffer. Add data from the current
